@@ -907,3 +907,122 @@ func ifaceContractFor(prog *Program, fi *FuncInfo) *Contract {
 	}
 	return nil
 }
+
+
+// verifyRefine checks that a method's own contract refines the contract of the interface method
+// it implements (so that dynamic callers, who only know the interface contract, are served):
+// under the interface precondition the own precondition holds, and the own postcondition and
+// frame give the interface postcondition. Technically: the stub "return recv.m(args)" is verified
+// against the interface contract, the call being replaced by the own contract.
+func verifyRefine(prog *Program, fi *FuncInfo, own, iface *Contract, opts *Options) (fr *FuncResult) {
+	t0 := time.Now()
+	key := fi.Key + "#refines"
+	fr = &FuncResult{Key: key}
+	fi2 := *fi
+	fi2.Key = key
+	e := newExec(prog, &fi2, iface, opts)
+	defer func() {
+		if r := recover(); r != nil {
+			if se, ok := r.(specErr); ok {
+				fr.SpecErrors = append(fr.SpecErrors, se.msg)
+			} else {
+				fr.Crashed = fmt.Sprint(r)
+			}
+		}
+		fr.Obls = e.obls
+		fr.SpecErrors = append(fr.SpecErrors, e.specErrors...)
+		for k := range e.assumptions {
+			fr.Assumptions = append(fr.Assumptions, k)
+		}
+		fr.UsedLemmas = e.usedLemmas
+		fr.GenTime = time.Since(t0).Seconds()
+		for _, o := range fr.Obls {
+			o.exec = e
+		}
+	}()
+	e.wordMode = usesWords(fi, own)
+	e.declare("alloc!0", SInt)
+	e.alloc0 = Term{"alloc!0", SInt}
+	e.assumeGlobal(Ge(e.alloc0, IntLit(1)))
+	if e.wordMode {
+		e.needBitLib()
+	}
+	st := &State{vars: map[types.Object]Term{}, heap: map[string]Term{}, pc: True}
+	fd := fi.Decl
+	sig := fi.Obj.Type().(*types.Signature)
+	var recv *TV
+	var args []TV
+	bind := func(n *ast.Ident, isRecv bool) {
+		obj := e.info.Defs[n]
+		if obj == nil {
+			return
+		}
+		v := e.fresh(n.Name, e.sortOf(obj.Type()))
+		e.assumeGlobal(e.rangeFact(v, obj.Type()))
+		e.assumeGlobal(e.allocFact(v, obj.Type(), e.alloc0))
+		if isRecv {
+			e.assumeGlobal(Gt(v, IntLit(0)))
+			recv = &TV{v, obj.Type()}
+		} else {
+			args = append(args, TV{v, obj.Type()})
+		}
+		e.entryVars[n.Name] = TV{v, obj.Type()}
+		st.vars[obj] = v
+	}
+	if fd.Recv != nil {
+		for _, f := range fd.Recv.List {
+			for _, n := range f.Names {
+				bind(n, true)
+			}
+		}
+	}
+	for _, f := range fd.Type.Params.List {
+		for _, n := range f.Names {
+			bind(n, false)
+		}
+	}
+	var resObjs []types.Object
+	for k := 0; k < sig.Results().Len(); k++ {
+		o := types.NewVar(fd.Pos(), fi.Pkg.Types, fmt.Sprintf("_r%d", k), sig.Results().At(k).Type())
+		resObjs = append(resObjs, o)
+		st.vars[o] = e.zero(o.Type())
+	}
+	e.results = resObjs
+	e.resStack = [][]types.Object{resObjs}
+	e.bindIfaceNames(iface, fi)
+	e.entry = st.clone()
+	func() {
+		defer e.catchSpec(key+" requires/modifies", fd.Pos())
+		env := e.entryEnv(st)
+		for _, r := range iface.Requires {
+			e.assumeClause(st, r, env)
+		}
+		e.modRefs = e.modLocs(iface.Modifies, env)
+	}()
+	if len(e.specErrors) > 0 {
+		return
+	}
+	e.entry = st.clone()
+	outs := e.applyContract(st, nil, fi, own, recv, args)
+	for i, o := range resObjs {
+		if i < len(outs) {
+			st.vars[o] = outs[i]
+		}
+	}
+	e.checkPosts(st, fd.Pos())
+	return
+}
+
+// refinementPair returns (own, iface) when a method has a full own contract and also implements
+// an interface method under contract.
+func refinementPair(prog *Program, fi *FuncInfo) (*Contract, *Contract) {
+	own := prog.Contracts[fi.Key]
+	if own == nil || !(len(own.Requires) > 0 || len(own.Ensures) > 0 || own.ModGiven) || own.Trusted != "" || own.IsLemma {
+		return nil, nil
+	}
+	ic := ifaceContractFor(prog, fi)
+	if ic == nil {
+		return nil, nil
+	}
+	return own, ic
+}
